@@ -290,7 +290,12 @@ impl VM {
                 }
                 OpCode::GetGlobal => {
                     let idx = self.read_u16();
-                    let value = self.globals[idx as usize];
+
+                    // a global that is declared but not yet assigned to (stel x = x) reads as null
+                    let value = match self.globals.get(idx as usize) {
+                        Some(value) => *value,
+                        None => Object::null(),
+                    };
                     self.push(value);
                 }
                 OpCode::SetLocal => {
